@@ -582,7 +582,7 @@ impl<D: StorageData> Storage<D> {
                 ));
             }
 
-            self.records.set_record(record);
+            self.records.set_record(record)?;
             current_pos = record.end();
         }
 
